@@ -346,6 +346,12 @@ func c04Run(run *vfRun, c c04Case) {
 				now := v.clk.Now().Unix()
 				cr := c04ClockRound(now, nt.genesis, c.PeriodS)
 				fr := cr + uint64(rng.Range(2, 6))
+				switch rng.Intn(5) {
+				case 0: // round numbers with the top bit set, where signed arithmetic on rounds goes wrong
+					fr = 1<<63 + cr + uint64(rng.Range(0, 6))
+				case 1:
+					fr = ^uint64(0) - uint64(rng.Intn(3))
+				}
 				var prev []byte
 				if nt.chained() {
 					prev = rng.Bytes(96)
